@@ -204,8 +204,42 @@ def clause_e(facts, rep):
                       'a positive-length result must have passed a store of \'.\' or a verified formatter', facts.config)
         rep.require(n >= 5, 'C07.e: only %d text-producing returns of F64toa found' % n)
         # non-finite test: the early return 0 is guarded by the all-ones exponent
-        infexp = [cval(e['r']) for _, _, _, e in f.walk() if e.get('k') == 'bin' and e['op'] == '==' and cval(e['r']) == 0x7FF]
-        rep.check(bool(infexp), 'E5.nonfinite', f.qn, 'exponent compared with 0x7FF before any output', f.loc, '', facts.config)
+        # evaluated (sv/minterp.py): for every class of non-finite bit pattern - both signs, infinity, quiet / signalling
+        # NaN, smallest and largest payload - F64toa returns 0 before it calls anything or writes any byte; the
+        # neighbouring finite patterns are not swallowed by the same test
+        from ..minterp import Interp, Unsupported
+
+        class _Past(Exception):
+            pass
+        EXPM = 0x7FF << 52
+        nonfinite = [sgn | EXPM | frac for sgn in (0, 1 << 63) for frac in (0, 1, 1 << 51, (1 << 51) | 1, (1 << 52) - 1, 1 << 50)]
+        finite = [sgn | (e << 52) | frac for sgn in (0, 1 << 63) for e in (0x7FE, 0x3FF, 1) for frac in (0, (1 << 52) - 1)]
+        bad = None
+        try:
+            for raw in nonfinite + finite:
+                def hook(e, args, env, members, raw=raw):
+                    if e.get('cname') == 'F64ToRaw':
+                        return raw
+                    if (e.get('cname') or '').startswith('__builtin_'):
+                        return None
+                    raise _Past(e.get('cname'))
+                it = Interp(f, facts, call_hook=hook)
+                try:
+                    got = it.run({f.params[0]['id']: 4096, f.params[1]['id']: 0}, {})[0]
+                    past = False
+                except _Past:
+                    got, past = None, True
+                isnf = raw in nonfinite
+                if isnf and (past or got != 0 or it.mem_stores):
+                    bad = 'bits 0x%016x (non-finite) are not refused: %s' % (raw, 'formatting continues' if past else 'returns %s / writes %s' % (got, it.mem_stores[:1]))
+                    break
+                if not isnf and not past and got == 0:
+                    bad = 'finite bits 0x%016x are refused' % raw
+                    break
+        except Unsupported as ex:
+            raise AnalysisBroken('C07.e: non-finite screening of F64toa not evaluable: %s' % ex)
+        rep.check(bad is None, 'E5.nonfinite', f.qn, 'returns 0 without output for all %d non-finite bit-pattern classes (both signs), for none of %d finite neighbours' % (len(nonfinite), len(finite)), f.loc,
+                  bad or '', facts.config)
 
 
 def clause_f(facts, rep):
